@@ -308,6 +308,14 @@ def run(ck):
                 continue
             sp = cand[0].args[1]
             outcome, inp = sp[2], sp[3]
+            # the gathered tensor holds one unitary per *rotated* site (its first axis is indexed by the rank among them)
+            base_t = cand[0].args[0]
+            sel_atoms = [a for a in (base_t.all_atoms() if hasattr(base_t, "all_atoms") else []) if isinstance(a, T.App) and a.op == "nonzero"]
+            site_ix = sp[0]
+            by_rank = isinstance(site_ix, tuple) and site_ix[0] == "adv" and any(isinstance(a, T.App) and a.op == "arange" for a in site_ix[1].all_atoms())
+            if by_rank:
+                ck.check(bool(sel_atoms) if "arr:basis" in (base_t.syms() if hasattr(base_t, "syms") else set()) else None, "C04.R3", "one unitary per rotated site, in site order [%s]" % _c(p), rbs.site(),
+                         "the unitaries are stacked for every letter of the basis string but indexed by the rank among the rotated sites: site k of the rotated sites gets the unitary of letter k of the string")
             so = outcome[1].syms() if isinstance(outcome, tuple) and outcome[0] == "adv" else set()
             si = inp[1].syms() if isinstance(inp, tuple) and inp[0] == "adv" else set()
             gen_o = any(isinstance(a, T.App) and a.op == "arange" for a in (outcome[1].all_atoms() if so else []))
